@@ -155,7 +155,7 @@ def flw11_digest_when_modified(ctx):
 
 def flw10_paths_from_sanitised_parts(ctx):
     ctx.rule('FLW-10', 'every path below the tables directory is tables_path / sanitize_table_name(t) '
-                       '/ partition_filename(id, key); wal paths are wal_dir / "<u64>.wal"', floor=8)
+                       '/ partition_filename(id, key); wal paths are wal_dir / "<u64>.wal"', floor=4)
     P = ctx.P
     n = 0
     for b in P.fn_bodies():
@@ -207,7 +207,7 @@ def flw10_paths_from_sanitised_parts(ctx):
                     ctx.check('FLW-10', '%s|file-component' % b.name,
                               arg_call == 'disk_store::storage::partition_filename',
                               'table directory is extended with %s' % (arg_call or arg_root[0]), where(t))
-    ctx.require(n >= 8, 'FLW-10: only %d path construction sites found' % n)
+    ctx.require(n >= 4, 'FLW-10: only %d path construction sites found' % n)
     # partition_filename formats a u64 and the key
     pf = P.one('disk_store::storage::partition_filename')
     # subpartition keys
